@@ -672,10 +672,23 @@ func (e sliceErr) Error() string { return "slice error" }
 
 var scriptedPanicN uint32
 
-func scriptedPanic() {
+func scriptedPanic() { scriptedEnd(true) }
+
+// scriptedPanicOnly: the same without Goexit (for handlers that the harness calls directly)
+func scriptedPanicOnly() { scriptedEnd(false) }
+
+func scriptedEnd(allowExit bool) {
 	// (two in a row of each uncomparable kind: code that compares a panic value with the previous
 	// one must survive that too)
-	switch []int{0, 1, 1, 2, 3, 3, 4}[atomic.AddUint32(&scriptedPanicN, 1)%7] {
+	switch []int{5, 0, 6, 1, 1, 2, 3, 3, 4}[atomic.AddUint32(&scriptedPanicN, 1)%9] {
+	case 5: // a nil error value: with the library's language version recover() returns nil for it
+		var err error
+		panic(err)
+	case 6: // the handler's goroutine is ended without a panic at all
+		if allowExit {
+			runtime.Goexit()
+		}
+		panic("scripted handler panic")
 	case 0:
 		panic("scripted handler panic")
 	case 1:
